@@ -89,6 +89,16 @@ def run(chk, replay=None):
                             e["out"] = flatten({str(k): v for k, v in r.items()}) or {"#empty": []}
                             if bytes(live) != bytes(buf):
                                 e["exc"] = "DecoderChangedTheBuffer"
+                            else:
+                                # the buffer is used again (the next READ CD of a ripping loop): the sectors decoded
+                                # before still say what the device had sent then
+                                live[:] = bytes((x ^ 0xFF) & 0xFF for x in live)
+                                try:
+                                    again = flatten({str(k): v for k, v in r.items()}) or {"#empty": []}
+                                except Exception:
+                                    again = None
+                                if again != e["out"]:
+                                    e["exc"] = "ResultFollowsTheBuffer"
                         except Exception as ex:
                             e["exc"] = type(ex).__name__
                             e["out"] = {"#empty": []}
